@@ -13,7 +13,7 @@ EXPLANATION = (
     "- a target for which is_valid is false yields Kind::InvalidModule and is never loaded; (R5) JOIN-AGREE - module::load "
     "and resolve::declare_import derive the imported locator with the same Locator::join(loc, import.module()). "
     "Exactly-once over all graphs as observed behaviour and the url crate's path normalisation are not decided.")
-EXPLANATION += " Further clauses: (R6) COMPLETE - Program::imports selects children by cast only, CycleDetected is constructed only by the failed toposort, the already-loaded arm cannot fail; (R7) LOCATORS - Locator::join delegates to url::Url::join and every Loader::is_valid returns the file system's (or the fixed input's) verdict. The rules follow is_valid/join into closures of module::load. R7 also requires locator_path to convert with url::Url::to_file_path. R7 also requires FileSystem::is_valid to follow symbolic links like read_file. (R8) SPELLING - two spellings of one file are one module. (R9) USE-ORDER - a name brought in by two imports is not silently resolved in favour of the later one."
+EXPLANATION += " Further clauses: (R6) COMPLETE - Program::imports selects children by cast only, CycleDetected is constructed only by the failed toposort, the already-loaded arm cannot fail; (R7) LOCATORS - Locator::join delegates to url::Url::join and every Loader::is_valid returns the file system's (or the fixed input's) verdict. The rules follow is_valid/join into closures of module::load. R7 also requires locator_path to convert with url::Url::to_file_path. R7 also requires FileSystem::is_valid to follow symbolic links like read_file. (R8) SPELLING - two spellings of one file are one module. (R9) USE-ORDER - a name brought in by two imports is not silently resolved in favour of the later one. R2 also requires the edge of an import to be added unconditionally; (R10) LOCATOR-IDENTITY - Locator equality and hashing are exact on the URL."
 TECHNIQUE = "static analysis: MIR dominance, must-pass-through and argument-provenance rules on module::load"
 
 L = 'oal_compiler::module::load'
@@ -138,6 +138,30 @@ def r2_edge_agree(c, facts):
             c.sample(inst)
         else:
             c.bad(R, 'edge-orientation:site%d' % n, 'module::load adds a dependency edge that is not oriented (imported module -> importing module): toposort would compile an importer before its import (%s:%s)' % (fn.file, t['ln']), **inst)
+    # every import contributes its edge: once the lookup of an already discovered module has answered, nothing else decides
+    # whether the edge is added (a "linked once" set drops the edge of every later importer of that module)
+    top = fn
+    eb = {b for b, _ in edges}
+    extra = set()
+    for b, blk in top.blocks():
+        sw = blk['term']
+        if sw['t'] != 'switch' or 'l' not in sw['discr']:
+            continue
+        succ = top.succ(b)
+        dom = [any(top.dominates(x, e) for e in eb) for x in succ]
+        if not (any(dom) and not all(dom)):
+            continue
+        gs = MF.slice_back(top, sw['discr']['l'], idx, through_calls=False)
+        gn = {P.strip(n).split('::')[-1] for n, _, _ in gs['calls']}
+        if gn and gn <= {'next', 'next_back', 'pop', 'get', 'get_mut', 'contains_key', 'entry', 'branch', 'is_valid', 'is_some', 'is_none'}:
+            continue
+        if not gn:
+            continue
+        extra |= gn
+    if extra:
+        c.bad(R, 'edge-conditional-on:%s' % ','.join(sorted(extra)), 'module::load adds the dependency edge of an import only when %s says so: an importer can lose its edge (it is then compiled before the module it imports, and a cycle through that edge goes unreported)' % sorted(extra))
+    else:
+        c.ok(R, {'edges': 'added for every import of an already discovered module'})
 
 
 def r3_sorted(c, facts):
@@ -558,7 +582,32 @@ def r9_use_order(c, facts):
         c.bad(R, 'declare_import:previous-definition-ignored', 'declare_import ignores the previous definition returned by Env::declare: with two unqualified imports that declare the same name the later one wins, so swapping two `use` statements changes the document')
 
 
+def r10_locator_identity(c, facts):
+    """two modules are the same module exactly when their URLs are equal: Locator keys the set of loaded modules, the
+    dependency map and the server's documents"""
+    R = c.rule('C10.R10', 'LOCATOR-IDENTITY: Locator equality and hashing are exact on the URL (no folding of case or form)')
+    n = 0
+    for q, l in sorted(facts.by_qname.items()):
+        if 'locator::Locator as' not in q or not ('cmp::PartialEq' in q or 'hash::Hash' in q):
+            continue
+        fn = l[0]
+        if not fn.mir:
+            continue
+        n += 1
+        names = set()
+        for g in [fn] + list(facts.closures_of(fn)):
+            if g.mir:
+                names |= {P.strip(callee_of(t)['def']).split('::')[-1] for b, t in g.calls() if callee_of(t)}
+        odd = sorted(names - {'eq', 'ne', 'hash', 'deref', 'as_ref', 'as_str', 'borrow', 'url', 'clone'})
+        if odd:
+            c.bad(R, 'locator-identity-folded:%s' % ','.join(odd), '%s goes through %s: two different files can become one module (never loaded, or reported as an import cycle), or one file two' % (q.split('::', 1)[1], odd))
+        else:
+            c.ok(R, {'impl': q, 'calls': sorted(names)})
+    c.floor(R, 'identity impls of Locator (PartialEq, Hash)', n, 2)
+
+
 def run(c, facts):
+    c.run(r10_locator_identity, facts)
     c.run(r9_use_order, facts)
     c.run(r8_spelling, facts)
     c.run(r7_locators, facts)
